@@ -21,7 +21,7 @@ def nextest(wt):
 
 def run_demo(prop, n, wt, meta):
     out_dir = wt + '_out'
-    cmd = meta.get('demo_cmd', '')
+    cmd = meta.get('demo_cmd', '').split('#')[0]
     ddir = os.path.join(out_dir, 'm%d_demo' % n)
     drs = os.path.join(out_dir, 'm%d_demo.rs' % n)
     if os.path.isdir(ddir):
